@@ -156,6 +156,23 @@ var pureOps = []pureOp{
 			e.Min().AsText(), e.Max().AsText(), bx, bok, e.IsEmpty(), e.IsPoint(), e.IsLine(), e.IsRectangle(), e.Validate(),
 			e.TransformXY(func(p geom.XY) geom.XY { return geom.XY{X: -p.Y, Y: p.X} }))
 	}},
+	{"DecodeAll", func(a, b *sharedVal) string {
+		// every decoder on the encodings of the shared value: decoding is a read of its input and must be deterministic
+		var sb strings.Builder
+		if j, err := a.g.MarshalJSON(); err == nil {
+			r, err := geom.UnmarshalGeoJSON(j, geom.NoValidate{})
+			sb.WriteString(resStr(r, err))
+		}
+		r1, err := geom.UnmarshalWKB(a.g.AsBinary(), geom.NoValidate{})
+		sb.WriteString(resStr(r1, err))
+		r2, err := geom.UnmarshalWKT(a.g.AsText(), geom.NoValidate{})
+		sb.WriteString(resStr(r2, err))
+		if t, err := geom.MarshalTWKB(a.g, 1); err == nil {
+			r3, err := geom.UnmarshalTWKB(t, geom.NoValidate{})
+			sb.WriteString(resStr(r3, err))
+		}
+		return sb.String()
+	}},
 	{"Summary", func(a, b *sharedVal) string { return a.g.Summary() + a.g.String() }},
 	{"DumpCoordinates", func(a, b *sharedVal) string { return fmt.Sprint(seqToks(a.g.DumpCoordinates())) }},
 	{"RotatedMBR", func(a, b *sharedVal) string {
@@ -263,6 +280,10 @@ func purityExec(c Case) Event {
 			withParts(w[1].AsGeometry()),
 			withParts(geom.NewGeometryCollection([]geom.Geometry{w[1].AsGeometry(), w[0].AsGeometry()}).AsGeometry()),
 			withParts(geom.NewMultiLineString(w).AsGeometry()))
+		// 3D collections with an empty Point next to 3D positions (the GeoJSON reader decides the dimension from the set of
+		// position lengths it has seen)
+		vals = append(vals, withParts(mustWKT("GEOMETRYCOLLECTION Z(POINT Z(1 2 3),POINT Z EMPTY,LINESTRING Z(0 0 1,1 1 2))")),
+			withParts(mustWKT("GEOMETRYCOLLECTION ZM(POINT ZM EMPTY,MULTIPOINT ZM((1 2 3 4),EMPTY))")))
 		long := geom.NewLineString(seqOf([]geom.XY{{X: 0, Y: 0}, {X: 1, Y: 1}, {X: 2, Y: 0}, {X: 3, Y: 1}, {X: 4, Y: 0}})).AsGeometry()
 		cut := mustWKT("MULTILINESTRING((0 0,1 1),(2 0,3 1),(3 1,4 0))")
 		if res, err := geom.Intersection(long, cut); err == nil {
@@ -287,7 +308,7 @@ func purityExec(c Case) Event {
 	setOps := []int{}
 	for i, op := range pureOps {
 		switch op.name {
-		case "Union", "Intersection", "Difference", "SymmetricDifference", "UnaryUnion", "Relate", "ConvexHull", "Boundary", "Simplify":
+		case "Union", "Intersection", "Difference", "SymmetricDifference", "UnaryUnion", "Relate", "ConvexHull", "Boundary", "Simplify", "DecodeAll":
 			setOps = append(setOps, i)
 		}
 	}
